@@ -9,6 +9,7 @@ package main
 //	b <kind> <Method> <route> <tuple> <tuple> ...      tuple = argument values (c01 codec), comma separated,
 //	                                                  receiver first — exactly the parameters of the arm
 //	c slice|bytes|array|map|chan ...                   container methods, see c34_container.go
+//	n <kind> <Method>                                  a method Go gives no meaning to on the kind: must not compile
 //
 // routes (how the method is reached through the REAL interpreter):
 //
@@ -477,8 +478,32 @@ func c34exec1(line string) Result {
 		return c34execBasic(f[1:])
 	case "c":
 		return c34execContainer(f[1:])
+	case "n":
+		return c34execNeg(f[1:])
 	}
 	return Result{Out: "bad-op"}
+}
+
+// c34execNeg: "n <kind> <Method>" — a method the table does NOT declare for the kind (Go defines no such operator
+// on it: bool + bool, float % float, complex < complex, string - string, ...) must not compile.
+func c34execNeg(f []string) Result {
+	if len(f) != 2 || bkinds[f[0]] == nil {
+		return Result{Out: "bad-op"}
+	}
+	k, m := bkinds[f[0]], f[1]
+	fn := c34build(k, m, "d")
+	res := Result{Out: "rejected", Nontrivial: true, Tags: []string{"neg", "kind:" + k.name, "meth:" + m}}
+	if fn.errText == "" {
+		res.Out = "accepted"
+		if !c34declared(k, m) {
+			res.Key = "neg-" + k.name + "-" + m + "-accepted"
+			res.Viol = k.name + "." + m + " compiles although Go defines no such operator on " + k.name
+		}
+	} else if c34declared(k, m) {
+		res.Key = "neg-" + k.name + "-" + m + "-rejected"
+		res.Viol = k.name + "." + m + " does not compile: " + fn.errText
+	}
+	return res
 }
 
 // ---- generator ----
@@ -694,6 +719,13 @@ func (g *c34gen) basic() {
 
 func c34gen1(r *rand.Rand, tier string, emit func(string)) {
 	g := &c34gen{r: r, tier: tier, emit: emit}
+	for _, kn := range bkindNames {
+		for _, m := range c34methods {
+			if !c34declared(bkinds[kn], m) {
+				emit("n " + kn + " " + m)
+			}
+		}
+	}
 	g.basic()
 	g.containers()
 }
